@@ -158,3 +158,17 @@ prop("C17", run="^TestC17", level="exploration",
      text="Randomised exploration with a reflective filler and an exhaustive-per-value mutation walker, over an exhaustive list of copy-capable types.",
      note="Trusted: the reflective filler/mutation walker and canon.RenderFull as the observation function.",
      technique="property-based testing (rapid): reflective value generation + mutation non-interference oracle over all copy-capable types", design="DESIGN.md 4 C17", exhaustive_claim=False)
+
+prop("C04", run="^TestC04", level="exploration",
+     quick=(16, 700, 1200), thorough=(16, 60000, 14400),
+     rule="hostile inputs for every decoding entry point of DESIGN.md Appendix B (frame x7 x {none,lz4,snappy}, 17 message codecs x 6 versions (also decoded under a different version), query/continuous-paging options, type descriptors incl. 524287-level nesting, "
+          "22 primitive readers + ParseUuid, segments +-LZ4 with recomputed CRCs, lz4/snappy decompressors, datacodec.Decode for generated types into same-representation / other-representation / *interface{} / preferred / 14 deliberately wrong destinations, AuthCredentials.Unmarshal): "
+          "a valid encoding (from the reference encoders, with field annotations) mutated by: annotated length/count/code/flags field := {-1,-2,MinInt32,0,1,2,0x7f,0x80,0xff,0x7fff,0x8000,0xffff,2^24,MaxInt32, true+-1, random} (one or two fields), truncation at a drawn offset, bit flip, byte insert/delete, "
+          "splice with another valid encoding, re-wrapping as an independently compressed body, or random bytes (0..64 KiB, occasionally 1 MiB). Each call runs in a worker process (3 GiB address space). Oracle: returns value or error; recovered panic, worker death not caused by memory exhaustion, or no return within 60 s twice = violation. "
+          "Non-trivial = input differs from the valid encoding; distinct by (entry point, input hash)",
+     assumptions=["memory exhaustion is not one of the property's failure modes: a worker killed by its address-space limit is counted as 'skipped: resource exhaustion', never as a violation",
+                  "error-path nesting of type descriptors is capped at depth 1500 (the library's error wrapping is super-quadratic: slow but terminating); well-formed nesting goes to the 1 MiB maximum",
+                  "follow-up calls on decoded descriptors (AsCql, NewCodec, PreferredGoType) only for descriptors <= 4 KiB (quadratic in depth)"],
+     text="Structure-aware mutational fuzzing driven by rapid, one isolated execution per case, over all decoding entry points; finds panics/faults/hangs, cannot prove their absence.",
+     note="Trusted: worker isolation and death classification (stderr signature); reference encoders supplying valid encodings and field annotations.",
+     technique="property-based structure-aware mutation fuzzing (rapid) with subprocess isolation; 'returns value or error' oracle", design="DESIGN.md 4 C04, 2.3, 3.8")
